@@ -202,7 +202,7 @@ def r1_independent(R) -> None:
                         g_ = g_ or Fn(R, gi.qualname)
                         rn = [n_ for n_ in g_.cfg.nodes if n_.ast is x]
                         vals = g_.lf.values_reaching(rn[0].id, v.id) if rn else []
-                        if vals and all(dv is not None and is_call(dv, cname) for (_s, dv) in vals) and not g_.mutated_in_place(v.id):
+                        if vals and all(dv is not None and is_call(dv, cname) for (_s, dv) in vals) and v.id not in g_.mutated_in_place():
                             v = vals[0][1]
                     if is_call(v, cname):
                         R.violation(gi.qualname, f'memoised-result-handed-out:{cname}',
